@@ -11,13 +11,15 @@ import (
 func init() { generators["C12"] = genC12 }
 
 type hnswOpts struct {
-	nops       int
-	allowReuse bool
-	adversary  bool // remove the entry point / highest-level / hub vertices
-	gauss      bool
-	multi      bool // nearly half of the searches carry two or three queries (per-query cuts, then aggregation)
-	smallOnly  bool // keep at most 2*M resident vertices (exactness clause)
-	mass       int  // > 0: that many adds, then three quarters of them removed in insertion order (no flush), then
+	nops        int
+	allowReuse  bool
+	adversary   bool // remove the entry point / highest-level / hub vertices
+	gauss       bool
+	holdBuilder bool // search builders are kept and executed again later in the history, after adds, removals and
+	// flushes: a builder describes a query, it remembers nothing about the index it was first run on
+	multi     bool // nearly half of the searches carry two or three queries (per-query cuts, then aggregation)
+	smallOnly bool // keep at most 2*M resident vertices (exactness clause)
+	mass      int  // > 0: that many adds, then three quarters of them removed in insertion order (no flush), then
 	// searches with a tiny ef: the walk has to cross the removed region to the live vectors
 }
 
@@ -74,9 +76,23 @@ func runHNSWHistory(r *rand.Rand, p hnswParams, o hnswOpts, t *Trace) *Case {
 		ops = append(ops, func(c *Case) { dumpHNSW(c, st) })
 		t.Stat("hnsw.dump")
 	}
+	var held comet.VectorSearch
+	var heldEmit func(code int, res []comet.VectorResult) func(c *Case)
 	for step := 0; step < o.nops; step++ {
 		if step == o.nops-1 || r.Intn(5) == 0 {
 			dump()
+		}
+		if o.holdBuilder && held != nil && step%3 == 0 {
+			dump()
+			var hres []comet.VectorResult
+			var herr error
+			hpan := catchPanic(func() { hres, herr = held.Execute() })
+			hcode := errCode(herr)
+			if hpan {
+				hcode = 12
+			}
+			ops = append(ops, heldEmit(hcode, hres))
+			t.Stat("hnsw.search_builder_kept_across_history")
 		}
 		x := r.Intn(100)
 		liveCount := 0
@@ -344,6 +360,9 @@ func runHNSWHistory(r *rand.Rand, p hnswParams, o hnswOpts, t *Trace) *Case {
 			n := len(resident)
 			ks := []int{-1, 0, 1, 2, 3, n, n + 1, 100}
 			k := ks[r.Intn(len(ks))]
+			if o.holdBuilder && r.Intn(2) == 0 {
+				k = 100 // more than the index holds now; it may hold more when the builder is run again
+			}
 			thr := float32(0)
 			thrCase := r.Intn(10)
 			if forced != nil {
@@ -424,6 +443,23 @@ func runHNSWHistory(r *rand.Rand, p hnswParams, o hnswOpts, t *Trace) *Case {
 					c.U(uint64(x.Node.ID())).F32(x.Score)
 				}
 			})
+			if o.holdBuilder && code == 0 && !pan && (held == nil || r.Intn(3) == 0) {
+				held = s
+				hq, hn, hd, hk, hthr, hagg, hcut, hef := qs, nodes, docids, k, thr, aggz, cutoff, ef
+				heldEmit = func(code int, res []comet.VectorResult) func(c *Case) {
+					efE := hef
+					if hef <= 0 && efDefault > 0 {
+						efE = efDefault // the index's own ef at the time of THIS execution
+					}
+					return func(c *Case) {
+						c.N(4).Vecs(hq).U32s(hn).U32s(hd).N(hk).F32(hthr).N(hagg).N(hcut).N(0).N(efE)
+						c.N(code).N(len(res))
+						for _, x := range res {
+							c.U(uint64(x.Node.ID())).F32(x.Score)
+						}
+					}
+				}
+			}
 			t.Stat("hnsw.search")
 			if code == 0 && len(res) > 0 {
 				t.Stat("hnsw.search_nonempty")
@@ -488,5 +524,14 @@ func genC12(r *rand.Rand, t *Trace, thorough bool) {
 	}
 	for it := 0; it < 4+n/30; it++ {
 		runHybridHNSWDiff(r, t) // the exactness clause seen through the hybrid index
+	}
+	// appended (the cases above are what they were): the exactness regime with search builders kept across the
+	// history and run again after the index has changed
+	for it := 0; it < 10+n/30; it++ {
+		p := rndHNSWParams(r)
+		o := hnswOpts{nops: 25 + r.Intn(30), adversary: it%2 == 0, gauss: it%2 == 0, smallOnly: true, holdBuilder: true}
+		p.efc = 2*p.m + r.Intn(20)
+		p.efs = 2*p.m + r.Intn(20)
+		t.Emit(runHNSWHistory(r, p, o, t), "hnsw.small_exact_regime_kept_builders")
 	}
 }
